@@ -245,6 +245,8 @@ class Body:
         for i in range(n):
             for j, (tb, _) in enumerate(self.succ[i]):
                 self.pred[tb].append((i, j))
+        self.ps = False
+        self._x = None
         self.reach = self._reach_from(0, None)
         self._idom = None
         self._defs = None
@@ -289,7 +291,10 @@ class Body:
         """Set of blocks every entry path to which takes `edge` = (src_bb, succ_index)."""
         r = self._edge_dom_cache.get(edge)
         if r is None:
-            r = self.reach - self._reach_from(0, edge)
+            if self.ps:
+                r = self.reach - self._x_reach(removed_edge=edge)
+            else:
+                r = self.reach - self._reach_from(0, edge)
             self._edge_dom_cache[edge] = r
         return r
 
@@ -303,18 +308,179 @@ class Body:
         if r is None:
             if dom == 0:
                 r = set(self.reach)
+            elif self.ps:
+                r = self.reach - self._x_reach(removed_block=dom)
             else:
                 r = self.reach - self._reach_from(0, None, removed_blocks=(dom,))
             self._edge_dom_cache[key] = r
         return r
 
     def dominates(self, a, b):
+        if not self.ps:
+            return self.dom_plain(a, b)
         return b in self.block_dominated(a)
 
     def edges(self):
         for i in self.reach:
             for j, (tb, lab) in enumerate(self.succ[i]):
                 yield (i, j), tb, lab
+
+    # -- path-sensitive (variant-refined) exploded graph ------------------------------------------
+    def enable_path_sensitivity(self):
+        """Refine reachability with the statically known variant of Result/Option/ControlFlow
+        temporaries (set by an aggregate, moved, converted by Try::branch / from_residual, tested by a
+        discriminant switch).  Only infeasible edges are pruned, so dominance results stay sound."""
+        self.ps = True
+        self._edge_dom_cache = {}
+        self._build_exploded()
+        self.reach = {b for (b, _st) in self._x["nodes"]}
+        self._all_facts = None
+
+    _TRACK = ("std::result::Result<", "std::option::Option<", "std::ops::ControlFlow<")
+
+    def _tracked(self, l):
+        return self.locals[l]["ty"].startswith(self._TRACK)
+
+    def _build_exploded(self):
+        tainted = set()
+        for b in self.blocks:
+            if b["cleanup"]:
+                continue
+            for st in b["stmts"]:
+                if st["k"] == "assign" and st["rv"]["k"] in ("ref", "rawptr") and st["rv"].get("mut", True):
+                    if st["rv"]["k"] == "rawptr" or st["rv"]["mut"]:
+                        tainted.add(st["rv"]["place"]["l"])
+        self._tainted = tainted
+        nodes = {}
+        order = []
+        adj = []
+
+        def nid(b, st):
+            k = (b, st)
+            i = nodes.get(k)
+            if i is None:
+                i = len(order)
+                nodes[k] = i
+                order.append(k)
+                adj.append(None)
+            return i
+        start = nid(0, frozenset())
+        work = [start]
+        while work:
+            i = work.pop()
+            if adj[i] is not None:
+                continue
+            b, st = order[i]
+            outs = self._x_step(b, dict(st))
+            lst = []
+            for (j, tb, nst) in outs:
+                k = nid(tb, frozenset(nst.items()))
+                lst.append((k, (b, j)))
+                if adj[k] is None:
+                    work.append(k)
+            adj[i] = lst
+        self._x = {"nodes": nodes, "order": order, "adj": adj}
+
+    def _x_step(self, b, st):
+        """Abstract transfer of block b; returns [(succ_index, target, state)]."""
+        blk = self.blocks[b]
+        discr_of = {}   # local -> (place local, variants) for discriminant temporaries of this block
+        for s_ in blk["stmts"]:
+            if s_["k"] != "assign":
+                continue
+            d = s_["dst"]
+            rv = s_["rv"]
+            if d["p"]:
+                continue
+            l = d["l"]
+            discr_of.pop(l, None)
+            if rv["k"] == "discr" and not rv["place"]["p"]:
+                discr_of[l] = (rv["place"]["l"], rv.get("variants", []))
+                continue
+            if not self._tracked(l) or l in self._tainted:
+                continue
+            if rv["k"] == "agg" and rv.get("agg") == "adt":
+                st[l] = rv["variant"]
+            elif rv["k"] == "use":
+                q = op_place(rv["op"])
+                if q is not None and not q["p"] and q["l"] in st:
+                    st[l] = st[q["l"]]
+                    if "move" in rv["op"]:
+                        del st[q["l"]]
+                else:
+                    st.pop(l, None)
+            else:
+                st.pop(l, None)
+        t = blk["term"]
+        outs = []
+        if not t:
+            return outs
+        k = t["k"]
+        if k == "call":
+            d = t["dst"]
+            if not d["p"]:
+                l = d["l"]
+                n = callee_name(t)
+                v = None
+                a0 = op_place(t["args"][0]) if t["args"] else None
+                av = st.get(a0["l"]) if (a0 is not None and not a0["p"]) else None
+                if n == "std::ops::Try::branch" and av is not None:
+                    v = {"Ok": "Continue", "Some": "Continue", "Err": "Break", "None": "Break"}.get(av)
+                elif n == "std::ops::FromResidual::from_residual":
+                    ty = self.locals[l]["ty"]
+                    v = "Err" if ty.startswith("std::result::Result<") else ("None" if ty.startswith("std::option::Option<") else None)
+                elif n in ("std::result::Result::map_err", "std::result::Result::map", "std::option::Option::map") and av is not None:
+                    v = av
+                elif n in ("std::option::Option::ok_or_else", "std::option::Option::ok_or") and av is not None:
+                    v = {"Some": "Ok", "None": "Err"}.get(av)
+                if v is not None and self._tracked(l) and l not in self._tainted:
+                    st[l] = v
+                else:
+                    st.pop(l, None)
+            # moved arguments lose their value
+            for a in t["args"]:
+                if "move" in a and not a["move"]["p"]:
+                    st.pop(a["move"]["l"], None)
+        if k == "switch":
+            dp = op_place(t["discr"])
+            known = None
+            if dp is not None and not dp["p"] and dp["l"] in discr_of:
+                src, variants = discr_of[dp["l"]]
+                if src in st:
+                    for (val, name) in variants:
+                        if name == st[src]:
+                            known = val
+            for j, (tb, lab) in enumerate(self.succ[b]):
+                if known is not None:
+                    if lab[0] == "sw" and lab[1] != known:
+                        continue
+                    if lab[0] == "other" and any(v == known for v, _ in t["arms"]):
+                        continue
+                outs.append((j, tb, dict(st)))
+            return outs
+        for j, (tb, lab) in enumerate(self.succ[b]):
+            outs.append((j, tb, dict(st)))
+        return outs
+
+    def _x_reach(self, removed_edge=None, removed_block=None):
+        x = self._x
+        order, adj = x["order"], x["adj"]
+        if removed_block == 0:
+            return set()
+        seen = {0}
+        stack = [0]
+        blocks = {order[0][0]}
+        while stack:
+            i = stack.pop()
+            for (k, e) in adj[i]:
+                if e == removed_edge or k in seen:
+                    continue
+                if removed_block is not None and order[k][0] == removed_block:
+                    continue
+                seen.add(k)
+                blocks.add(order[k][0])
+                stack.append(k)
+        return blocks
 
     # -- terminators ----------------------------------------------------------------------------
     def calls(self, pred=None):
@@ -461,6 +627,11 @@ class Body:
             return rec(rv["op"], path, via + ("cast",))
         if k == "agg":
             a = rv["agg"]
+            if not path and textra and textra.get("__agg_all__") and a in ("adt", "tuple", "array"):
+                out = []
+                for o in rv["ops"]:
+                    out += rec(o, ())
+                return out
             if a == "adt":
                 p = path
                 if p and p[0][0] == "v":
@@ -499,6 +670,12 @@ class Body:
         n = callee_name(t)
         if opaque and opaque(t):
             return [Leaf("call", (bb, t), path, via)]
+        fa = textra.get("__flow_all__") if textra else None
+        if fa is not None and fa(t):
+            out = []
+            for a in t["args"]:
+                out += self.trace(a, (), opaque, textra, follow_mut, seen, via + (short(n),))
+            return out
         summ = None
         if textra and n in textra:
             summ = textra[n]
@@ -623,13 +800,76 @@ class Body:
         return [(e, f) for (e, tb, f) in self.all_edge_facts() if bb in self.edge_dominated(e)]
 
     # -- loops ----------------------------------------------------------------------------------
+    def _idoms(self):
+        """Immediate dominators of the plain CFG (Cooper-Harvey-Kennedy)."""
+        if self._idom is not None:
+            return self._idom
+        order = []
+        seen = set()
+        stack = [(0, iter([tb for (tb, _) in self.succ[0]]))]
+        seen.add(0)
+        while stack:
+            n, it = stack[-1]
+            adv = False
+            for m in it:
+                if m not in seen:
+                    seen.add(m)
+                    stack.append((m, iter([tb for (tb, _) in self.succ[m]])))
+                    adv = True
+                    break
+            if not adv:
+                order.append(n)
+                stack.pop()
+        rpo = list(reversed(order))
+        idx = {n: i for i, n in enumerate(rpo)}
+        idom = {0: 0}
+        changed = True
+        while changed:
+            changed = False
+            for n in rpo[1:]:
+                new = None
+                for (p, _) in self.pred[n]:
+                    if p not in idom or p not in idx:
+                        continue
+                    if new is None:
+                        new = p
+                    else:
+                        a, b = p, new
+                        while a != b:
+                            while idx[a] > idx[b]:
+                                a = idom[a]
+                            while idx[b] > idx[a]:
+                                b = idom[b]
+                        new = a
+                if new is not None and idom.get(n) != new:
+                    idom[n] = new
+                    changed = True
+        self._idom = idom
+        return idom
+
+    def dom_plain(self, a, b):
+        """a dominates b in the plain (path-insensitive) CFG."""
+        idom = self._idoms()
+        if b not in idom:
+            return False
+        while True:
+            if a == b:
+                return True
+            if b == 0:
+                return False
+            b = idom[b]
+
     def back_edges(self):
-        """Edges (a,j)->b where b dominates a."""
-        out = []
-        for (e, tb, lab) in self.edges():
-            if self.dominates(tb, e[0]):
-                out.append((e, tb))
-        return out
+        """Edges (a,j)->b where b dominates a (plain CFG: loop structure is syntactic)."""
+        r = getattr(self, "_back_edges", None)
+        if r is None:
+            r = []
+            for i in sorted(self.reach):
+                for j, (tb, lab) in enumerate(self.succ[i]):
+                    if self.dom_plain(tb, i):
+                        r.append(((i, j), tb))
+            self._back_edges = r
+        return r
 
     def loop_blocks(self, header):
         """Natural loop of `header`: blocks that reach a back edge into header without leaving."""
